@@ -344,7 +344,7 @@ func parentMain() {
 
 	// a run that did not observe what the oracles rely on gives no verdict
 	need := []string{
-		"tsd_blocks_encoded", "tsd_sequential_reads", "tsd_slot_addressed_reads", "tsd_cursor_histories", "tsd_seeks_forward",
+		"tsd_blocks_encoded", "tsd_sequential_reads", "tsd_slot_addressed_reads", "tsd_cursor_histories", "tsd_seeks_forward", "tsd_seeks_across_empty_slots", "tsd_seeks_across_empty_slots_positioned",
 		"tsd_blocks_via_downsampling_emitter", "tsd_decodes_without_time_header", "tsd_mask_empty", "tsd_mask_dense", "tsd_mask_sparse", "tsd_mask_single",
 		"pool_histories", "pool_encoder_reuse_observed", "pool_decoder_reuse_observed", "pool_encoder_released_dirty",
 		"pool_decoder_released_midway", "pool_encoder_held_across_other_users", "pool_two_decoders_interleaved",
